@@ -20,6 +20,14 @@ func toStringMap(v interface{}) (map[string]string, error) {
 		if !ok {
 			return nil, fmt.Errorf("header %s must be a string", k)
 		}
+		// A name or value that is not valid in HTTP would make the transport refuse every request it is
+		// set on (and be dropped silently from responses)
+		if !validHeaderName(k) {
+			return nil, fmt.Errorf("header name %q is not a valid HTTP header name", k)
+		}
+		if !validHeaderValue(s) {
+			return nil, fmt.Errorf("header %s: the value contains a control character", k)
+		}
 		res[k] = s
 	}
 	return res, nil
@@ -62,4 +70,34 @@ func init() {
 			})
 		}, nil
 	})
+}
+
+// validHeaderName reports whether s is an HTTP header field name (RFC 7230 token)
+func validHeaderName(s string) bool {
+	if s == "" {
+		return false
+	}
+	for i := 0; i < len(s); i++ {
+		c := s[i]
+		switch {
+		case 'a' <= c && c <= 'z', 'A' <= c && c <= 'Z', '0' <= c && c <= '9':
+		case c == '!' || c == '#' || c == '$' || c == '%' || c == '&' || c == '\'' || c == '*' || c == '+' ||
+			c == '-' || c == '.' || c == '^' || c == '_' || c == '`' || c == '|' || c == '~':
+		default:
+			return false
+		}
+	}
+	return true
+}
+
+// validHeaderValue reports whether s may be sent as an HTTP header field value: no control characters
+// other than horizontal tab
+func validHeaderValue(s string) bool {
+	for i := 0; i < len(s); i++ {
+		c := s[i]
+		if (c < ' ' && c != '\t') || c == 0x7f {
+			return false
+		}
+	}
+	return true
 }
